@@ -40,3 +40,5 @@ package dns
 // RFC 3597 generic form: the length printed after \# is the number of RDATA octets (half the hex digits)
 //@ func (*RFC3597).String [C05]
 //@   exit rdlen: callarg("Itoa", 0) == len(rr.Rdata) / 2
+//@ func writeTXTStringByte [C05]
+//@   modifies H.strings.Builder.addr.v@s H.strings.Builder.buf.cap@s H.strings.Builder.buf.len@s H.strings.Builder.buf.off@s H.strings.Builder.buf.ref@s
